@@ -386,6 +386,16 @@ func (g *TreeGen) group(api string, args []Arg) SItem {
 				items[i] = FuncItem{Wrapped: true, A: a}
 			}
 		}
+		// now and then a re-entrant Add from inside the next item's leading ...Func callback
+		for i := 0; i < len(items); i++ {
+			if s, ok := items[i].A.(*Stmt); ok && !items[i].Wrapped && len(s.Items) > 0 && g.r.Chance(20) {
+				switch s.Items[0].(type) {
+				case *GrpFunc, *CustomFunc:
+					items = append(items[:i], append([]FuncItem{{Wrapped: true, Hoist: true, A: st(id("hoisted"))}}, items[i:]...)...)
+					i++
+				}
+			}
+		}
 		return &GrpFunc{Api: api, Items: items}
 	}
 	return &Grp{Api: api, Args: args}
